@@ -11,7 +11,9 @@
       `mvn_sample_mean_cov` — the same for the sampler's own map `z ↦ vadd (matvec L z) μ`;
       `mvn_new_sample_mean_cov` — on every constructed object the covariance is `Σ` (`L Lᵀ = Σ`, C09/C19);
     * `mvt_sample_eq_none_iff_real` (`none ⇔ freedom ≤ 0`, never on a constructed object), `mvt_sample_toVec`
-      (`x = location + w·(L z)`, `w = √(ν / c)`, `c` the chi-squared draw made first);
+      (`x = location + w·(L z)`, `w = √(ν / c)`, `c` the chi-squared draw made first) — both in `VectorSamplersB.lean`;
+      over ℝ `RFun.isInf = false`, so the `freedom.is_infinite()` branch of 864abd5 is never taken there (it is covered for
+      every carrier by `mvt_sample_of_inf*` in `VectorSamplers.lean`, at `XR`/`Float` in `VectorSamplersB.lean`);
     * `multinomial_sample_f64_eq` (`= ofInt ∘ multinomial_sample`, same stream), `multinomial_sample_f64_spec`
       (one entry per category, entries sum to `n`, `n` words);
     * `empirical_sample_cons` (`Empirical::sample` = `__inverse_cdf(u)`, `u = ⌊w/4096⌋·2⁻⁵² / (1 − 2⁻⁵²) ∈ [0,1]` from ONE
@@ -26,7 +28,8 @@ import Mathlib.Probability.Distributions.Uniform
 set_option linter.unusedVariables false
 set_option linter.unusedSectionVars false
 namespace Statrs.Props.C06
-open Statrs Statrs.Gen Statrs.Model Statrs.Spec Statrs.Lemmas.Multivariate Statrs.Lemmas.Sampling
+open Statrs Statrs.Gen Statrs.Model Statrs.Lemmas.Multivariate Statrs.Lemmas.Sampling
+open Statrs.Spec hiding Fin  -- `Statrs.Spec.Fin` ("finite float", Spec/FloatLaws.lean) would shadow `_root_.Fin`
 open MeasureTheory ProbabilityTheory Matrix
 
 /-! ### lists ↔ Mathlib vectors and matrices -/
